@@ -272,7 +272,7 @@ func (m c02) Run(c *core.Ctx) {
 			c.Nontrivial(progHash(p))
 		}
 	}
-	n := c.Pick(1000, 20000)
+	n := c.Pick(1000, 50000)
 	o := c02opts()
 	for i := 0; i < n; i++ {
 		if stopExploring(c) {
